@@ -50,7 +50,9 @@ class BidsFileGroup:
         for bids_obj in self.datafile_dict.values():
             sidecar_list = self.get_sidecars_from_path(bids_obj)
             if sidecar_list:
-                bids_obj.sidecar = self.sidecar_dict[sidecar_list[-1]]
+                merged = BidsSidecarFile(sidecar_list[-1])
+                merged.set_contents(content_info=sidecar_list)
+                bids_obj.sidecar = merged
 
     def get_sidecars_from_path(self, obj):
         """ Return applicable sidecars for the object.
